@@ -127,7 +127,7 @@ func c08K4OneResponse(r *Run) {
 				if id.is(srvPath, "conn", "send") {
 					s++
 				}
-				if id.is(srvPath, "Server", "handleRequest") {
+				if rid := resolvedCallID(&call.Call, 0); rid.name == "HandleRequest" && rid.recv == "RequestHandler" {
 					h++
 				}
 			}
@@ -169,6 +169,9 @@ func c08K4OneResponse(r *Run) {
 	for _, name := range [][2]string{{"Server", "handleConn"}, {"Server", "handleRequest"}, {"BatchExecutor", "HandleRequest"}, {"BatchExecutor", "handleRequest"}, {"BatchExecutor", "executeItemWithMiddleware"}, {"BatchExecutor", "executeItem"}} {
 		fn := p.Func("kmipserver", name[0], name[1])
 		if fn == nil {
+			if name[1] == "handleRequest" && name[0] == "Server" {
+				continue // a thin forwarder to the handler: absent when the loop invokes the handler directly
+			}
 			r.Unk("C08.K4", "kmipserver."+name[0]+"."+name[1]+"/no-go", token.NoPos, "anchor missing")
 			continue
 		}
@@ -297,7 +300,7 @@ func c08K5InvalidMessage(r *Run) {
 			return
 		}
 		id := callID(&call.Call)
-		if id.is(srvPath, "Server", "handleMessageError") {
+		if rid := resolvedCallID(&call.Call, 0); rid.is(srvPath, "", "handleMessageError") {
 			hme = call
 		}
 		if id.is(srvPath, "conn", "send") {
@@ -308,7 +311,27 @@ func c08K5InvalidMessage(r *Run) {
 		r.Bad("C08.K5", "kmipserver.Server.handleConn/invalid-message", hc.Pos(), "the connection loop does not answer an encoding error with handleMessageError + send")
 		return
 	}
-	reason, _ := constIntVal(hme.Call.Args[3])
+	// the result reason: an argument of the call, or of the Errorf that builds its error argument
+	reason := int64(-2)
+	var findReason func(v ssa.Value, d int)
+	findReason = func(v ssa.Value, d int) {
+		if d > 3 {
+			return
+		}
+		if typeName(v.Type()) == "ResultReason" {
+			if k, ok := constIntVal(v); ok {
+				reason = k
+			}
+		}
+		if c, ok := v.(*ssa.Call); ok {
+			for _, a := range c.Call.Args {
+				findReason(a, d+1)
+			}
+		}
+	}
+	for _, a := range hme.Call.Args {
+		findReason(a, 0)
+	}
 	want := int64(-1)
 	if o := p.Pkg("").Types.Scope().Lookup("ResultReasonInvalidMessage"); o != nil {
 		if cst, ok := o.(interface {
